@@ -5,16 +5,16 @@
    under the abstraction (axiom Functional: equal abstract arguments and heap => equal abstract
    result, equal outcome, equal heap effect).  A case is a twin: the same library call executed
    with every integral number spelt as int and as float (recursively inside containers).      *)
-EXTENDS Integers, Sequences, TLC, Json, IOUtils
+EXTENDS Integers, Sequences, TLC, Json, IOUtils, TreeEq
 Cases == JsonDeserialize(IOEnv.CASES)
 VARIABLES tid, verdict
 vars == <<tid, verdict>>
 C == Cases[tid]
 Law ==
-    IF C.argsBeforeI # C.argsBeforeF THEN <<"REJECT", "harness: twins differ before the call", "">>
+    IF ~TreeSeqEq(C.argsBeforeI, C.argsBeforeF) THEN <<"REJECT", "harness: twins differ before the call", "">>
     ELSE IF C.statusI # C.statusF THEN <<"REJECT", "outcome-differs", <<C.fn, C.statusI, C.statusF>>>>
-    ELSE IF C.resI # C.resF THEN <<"REJECT", "result-differs", <<C.fn, C.argsBeforeI, "int", C.resI, "float", C.resF>>>>
-    ELSE IF C.argsAfterI # C.argsAfterF THEN <<"REJECT", "effect-on-arguments-differs", <<C.fn, C.argsAfterI, C.argsAfterF>>>>
+    ELSE IF ~TreeEq(C.resI, C.resF) THEN <<"REJECT", "result-differs", <<C.fn, C.argsBeforeI, "int", C.resI, "float", C.resF>>>>
+    ELSE IF ~TreeSeqEq(C.argsAfterI, C.argsAfterF) THEN <<"REJECT", "effect-on-arguments-differs", <<C.fn, C.argsAfterI, C.argsAfterF>>>>
     ELSE <<"ACCEPT">>
 Init == tid \in 1..Len(Cases) /\ verdict = "open"
 Next == /\ verdict = "open" /\ verdict' = Law[1] /\ PrintT(<<"V", tid>> \o Law) /\ UNCHANGED tid
